@@ -21,7 +21,7 @@ run_demo() {
   if [ -f "$SD/demo_test.rs" ]; then
     cp "$SD/demo_test.rs" src/tests/demo_test.rs
     grep -q "mod demo_test;" src/tests/mod.rs || sed -i 's/^mod arrow_func_tests;/mod arrow_func_tests;\nmod demo_test;/' src/tests/mod.rs
-    timeout 600 cargo test --offline demo_ 2>&1 | grep -E "^test result|^test .*(ok|FAILED)|error(\[|:)" | tee -a "$LOG" | grep -q "test result: ok"
+    timeout 600 cargo test --offline demo_ -- --test-threads=1 2>&1 | grep -E "^test result|^test .*(ok|FAILED)|error(\[|:)" | tee -a "$LOG" | grep -q "test result: ok"
     rc=$?
     rm -f src/tests/demo_test.rs; git checkout -q -- src/tests/mod.rs
     return $rc
